@@ -44,7 +44,11 @@ func NativeToObject(val any) Object {
 	case reflect.Struct:
 		return nativeStructToObject(val)
 	case reflect.Slice:
-		return nativeSliceToArrayObject(convertToInterfaceSlice(val))
+		if arr := nativeSliceToArrayObject(convertToInterfaceSlice(val)); arr != nil {
+			return arr
+		}
+
+		return nil
 	case reflect.Map:
 		return nativeMapToObject(val)
 	case reflect.Pointer:
@@ -65,7 +69,14 @@ func nativeMapToObject(val any) Object {
 	valValue := reflect.ValueOf(val)
 
 	for _, key := range valValue.MapKeys() {
-		obj.Pairs[key.String()] = NativeToObject(valValue.MapIndex(key).Interface())
+		pair := NativeToObject(valValue.MapIndex(key).Interface())
+
+		// unsupported type
+		if pair == nil {
+			return nil
+		}
+
+		obj.Pairs[key.String()] = pair
 	}
 
 	return obj
@@ -101,7 +112,14 @@ func nativeStructToObject(val any) Object {
 
 		fieldVal := reflect.ValueOf(val).Field(i).Interface()
 
-		obj.Pairs[field.Name] = NativeToObject(fieldVal)
+		pair := NativeToObject(fieldVal)
+
+		// unsupported type
+		if pair == nil {
+			return nil
+		}
+
+		obj.Pairs[field.Name] = pair
 	}
 
 	return obj
@@ -111,7 +129,14 @@ func nativeSliceToArrayObject(slice []any) *Array {
 	arr := &Array{}
 
 	for _, val := range slice {
-		arr.Elements = append(arr.Elements, NativeToObject(val))
+		elem := NativeToObject(val)
+
+		// unsupported type
+		if elem == nil {
+			return nil
+		}
+
+		arr.Elements = append(arr.Elements, elem)
 	}
 
 	return arr
